@@ -65,11 +65,14 @@ pub fn proxy_handler(
     }
 
     // Return error 403 if the address was blacklisted
-    if state
-        .config
-        .blacklist
-        .list
-        .contains(&request.address.origin_addr)
+    // The origin address and every address the request passed through, including the connected peer, are checked
+    let blacklist = &state.config.blacklist.list;
+    if blacklist.contains(&request.address.origin_addr)
+        || request
+            .address
+            .proxies
+            .iter()
+            .any(|proxy| blacklist.contains(proxy))
     {
         state.logger.warn(format!(
             "{}: Blacklisted IP attempted to request {}",
